@@ -5,5 +5,5 @@ set -u
 name=$1; id=$2; tier=${3:-quick}
 p=/verif/seeded/$name/patch.diff; [ -f "$p" ] || p=/verif/mutants/$name
 git -C /repo apply --whitespace=nowarn "$p" || exit 2
-trap 'git -C /repo checkout -q -- . ; git -C /repo clean -fdq zlink-core/src zlink-tokio/src zlink-smol/src zlink-macros/src zlink/src' EXIT
+trap 'git -C /repo checkout -q -- . ; git -C /repo clean -fdq zlink-core/src zlink-tokio/src zlink-smol/src zlink-macros/src zlink/src; cd /verif && ./check build >/dev/null 2>&1' EXIT
 cd /verif && ./check $id $tier --no-evidence 2>&1 | grep -E "VIOLATION|violation class|first message|minimised message|exit [0-9]|HARNESS|KNOWN" | head -20
